@@ -54,3 +54,22 @@ func ErrKey(err error) string {
 	}
 	return ""
 }
+
+// bareDoc wraps a schema.Object so that marshalling gives the document alone.
+type bareDoc struct{ obj *schema.Object }
+
+// MarshalJSON of the bare document.
+func (b *bareDoc) MarshalJSON() ([]byte, error) { return json.Marshal(b.obj) }
+
+// EnvelopDocNoCalc parses a bare document without calculating it; marshalling
+// the result gives the document's own serialisation.
+func EnvelopDocNoCalc(docJSON []byte) (json.Marshaler, error) {
+	obj := new(schema.Object)
+	if err := json.Unmarshal(docJSON, obj); err != nil {
+		return nil, err
+	}
+	if obj.IsEmpty() {
+		return nil, errors.New("empty document")
+	}
+	return &bareDoc{obj}, nil
+}
